@@ -52,7 +52,16 @@ def _int_points(rng, dim, n, hi=4, shape=()):
     return np.concatenate([a, np.ones(shape + (n, 1), dtype=np.int64)], axis=-1)
 
 
-def build_pool(rng, dim, with_collections=True, with_polytopes=True, with_quadrics=True, with_transforms=True, cshape=(3,)):
+def _rescale_elements(rng, obj, factors):
+    """The same collection with every element multiplied by its own factor (hostile representatives)."""
+    k = obj.free_indices
+    lam = np.array([factors[int(i)] for i in rng.integers(0, len(factors), size=int(np.prod(obj.shape[:k])))], dtype=float).reshape(obj.shape[:k] + (1,) * (obj.rank - k))
+    new = obj.copy()
+    new.array = obj.array * lam
+    return new
+
+
+def build_pool(rng, dim, with_collections=True, with_polytopes=True, with_quadrics=True, with_transforms=True, cshape=(3,), hostile_scales=False):
     """A pool of finite, real, mostly integer-coordinate objects in general position of the given dimension (2 or 3)."""
     import geometer as g
     from fractions import Fraction
@@ -102,6 +111,11 @@ def build_pool(rng, dim, with_collections=True, with_polytopes=True, with_quadri
             h = gen.coords(rng, cshape + (4,), 4, "int")
             h[..., 0] += 6
             pool.append(("ec0", g.PlaneCollection(h)))
+    if with_collections and hostile_scales:
+        # every element of the point / line / plane collections in its own homogeneous scale (ratios up to 1e6)
+        for k, (nm, ob) in enumerate(pool):
+            if nm in ("pc0", "pc1", "lc0", "lc1", "ec0"):
+                pool[k] = (nm, _rescale_elements(rng, ob, [1.0, -3.0, 0.5, 7.0, 1e3, 1e-3, -40.0]))
     if with_polytopes:
         if dim == 2:
             a, b, c = pts[0], pts[1], pts[2]
